@@ -1152,6 +1152,13 @@ class SymStream:
 
     def seek(self, off, whence=0):
         if _real_type(off) in (SInt, SInst):
+            t, lo, hi = _iv(off)
+            end = _real_len(self.data)
+            if whence == 0 and hi > end and ENGINE.decide(t > end):
+                # every position beyond the end behaves alike for reading (empty reads)
+                self.pos = end + 1
+                self.log.append(("seek", self.pos))
+                return self.pos
             off = concretize(off)
         if whence == 0:
             if off < 0:
